@@ -40,11 +40,15 @@ def obligations(tier):
                   "names x setattr / item assignment / delattr / del item"),
         CH("delete_and_item_assignment_refused", H, "delattr_refused", t, mode="E1s", functions=F[:1], bounds="4 properties x delattr / del item / item assignment"),
         CH("deepcopy_shares_nothing", H, "deepcopy_independent", t, mode="E1s", functions=F[1:3], bounds="5 container-rich objects x (deepcopy, new_version)"),
+        CH("deepcopy_every_class_equal", H, "deepcopy_every_class", t, mode="E1s", functions=F[1:3] + ["stix2.v20.common._should_set_millisecond"],
+           bounds="a minimal instance of every buildable registered class (both versions) x created/modified given as 4 text forms or defaulted: the copy and the copy's copy equal the original and print the same text"),
+        CH("timestamp_value_copies", H, "timestamp_copies", t, mode="E1s", functions=["stix2.utils.STIXdatetime.__reduce_ex__", "stix2.utils.format_datetime"],
+           bounds="3 precisions x 2 constraints x 4 fractions x (copy, deepcopy, pickle round trip) of the library's timestamp value: equal, same class, same text, same format metadata"),
         CH("marking_operations_leave_input", H, "marking_ops_leave_input", t, mode="E1s", functions=F[2:] + ["stix2.markings.utils.expand_markings",
            "stix2.markings.utils.compress_markings", "stix2.markings.granular_markings.clear_markings", "stix2.markings.granular_markings.set_markings"],
            bounds="5 granular-marking layouts x 16 marking operations (incl. inherited queries for markings the granular level does not satisfy) x 4 selector lists x dict / library object; snapshot, container identity, mutation of the result"),
         CH("extensions_argument_unchanged", H, "extensions_argument", t, mode="E1s", functions=F[2:] + ["stix2.properties.ExtensionsProperty.clean", "stix2.custom._custom_object_builder"],
            bounds="5 shapes of a caller's extensions dictionary (empty, instances only, dictionaries, mixed, empty instance) x 4 users (custom object / observable declared "
                   "with extension_name, new_version, File) x once/twice: keys, value identities and content unchanged, an object built earlier from it unchanged"),
-        CH("arguments_unchanged", H, "arguments_unchanged", t, mode="E1s", functions=F[2:], bounds="20 operations (incl. one ObjectFactory / Environment used repeatedly, Bundle(list, item)) x (called once, called twice on the same arguments)"),
+        CH("arguments_unchanged", H, "arguments_unchanged", t, mode="E1s", functions=F[2:], bounds="25 operations (incl. one ObjectFactory / Environment used repeatedly with per-call values given as lists and singly, Bundle(list, item), Bundle(list, list, item) in both versions) x (called once, called twice on the same arguments)"),
     ]
